@@ -72,6 +72,10 @@ class NPFacade:
     inf = np.inf
     nan = np.nan
 
+    @property
+    def random(self):
+        return getattr(self, "_random_ns", np.random)
+
     def __init__(self, exact=True):
         self.exact = exact
 
@@ -100,6 +104,12 @@ class NPFacade:
     def array(self, a, dtype=None, **kw):
         if _has_q(a):
             return _obj(a).copy()
+        if isinstance(a, (list, tuple)) and a and builtins.all(isinstance(x, str) for x in a) and core.CUR is not None \
+                and getattr(core.CUR, "symbolic", False) | (getattr(core.CUR, "mode", "") == "exact"):
+            out = np.empty(len(a), dtype=object)
+            for i, x in enumerate(a):
+                out[i] = core.parse_number(x)
+            return out
         if dtype in ("longdouble", np.longdouble, float, "float64", np.float64) and core.CUR is not None:
             arr = np.asarray(a, dtype=np.float64)
             out = np.empty(arr.shape, dtype=object)
